@@ -63,6 +63,19 @@ Definition cursor_connection : fdef :=
      f_body := [(SReturn (Some (XAttr (XName "self") "_context")))];
      f_gen := false |}.
 
+(* beanquery.cursor.Cursor.executemany *)
+Definition cursor_executemany : fdef :=
+  {| f_params := ["self"; "query"; "params"];
+     f_body := [(SAssign (TName "query") (XCall (XConst (PRef 2)) [(XName "query")] None)); (SFor "p" (XName "params") [(SExpr (XCall (XAttr (XName "self") "execute") [(XName "query"); (XName "p")] None))])];
+     f_gen := false |}.
+Definition cursor_executemany_defaults : list expr := [(XConst PNone)].
+
+(* beanquery.cursor.Cursor.__iter__ *)
+Definition cursor_iter : fdef :=
+  {| f_params := ["self"];
+     f_body := [(SReturn (Some (XCall (XConst (PRef 5)) [(XAttr (XName "self") "fetchone"); (XConst PNone)] None)))];
+     f_gen := false |}.
+
 (* beanquery.cursor.Column.__init__ *)
 Definition column_init : fdef :=
   {| f_params := ["self"; "name"; "datatype"];
@@ -78,7 +91,7 @@ Definition column_len : fdef :=
 (* beanquery.cursor.Column.__getitem__ *)
 Definition column_getitem : fdef :=
   {| f_params := ["self"; "key"];
-     f_body := [(SIf (XCall (XConst (PRef 1)) [(XName "key"); (XConst (PRef 5))] None) [(SReturn (Some (XCall (XConst (PRef 6)) [(XListComp (XCall (XName "getter") [(XName "self")] None) "getter" (XIndex (XAttr (XName "self") "_vars") (XName "key")) None)] None)))] []); (SReturn (Some (XCall (XIndex (XAttr (XName "self") "_vars") (XName "key")) [(XName "self")] None)))];
+     f_body := [(SIf (XCall (XConst (PRef 1)) [(XName "key"); (XConst (PRef 6))] None) [(SReturn (Some (XCall (XConst (PRef 7)) [(XListComp (XCall (XName "getter") [(XName "self")] None) "getter" (XIndex (XAttr (XName "self") "_vars") (XName "key")) None)] None)))] []); (SReturn (Some (XCall (XIndex (XAttr (XName "self") "_vars") (XName "key")) [(XName "self")] None)))];
      f_gen := false |}.
 
 (* beanquery.cursor.Column.name *)
@@ -90,7 +103,7 @@ Definition column_prop_name : fdef :=
 (* beanquery.cursor.Column.type_code *)
 Definition column_prop_type_code : fdef :=
   {| f_params := ["self"];
-     f_body := [(SReturn (Some (XCall (XConst (PRef 7)) [(XAttr (XName "self") "_type")] None)))];
+     f_body := [(SReturn (Some (XCall (XConst (PRef 8)) [(XAttr (XName "self") "_type")] None)))];
      f_gen := false |}.
 
 (* beanquery.cursor.Column.display_size *)
@@ -124,7 +137,7 @@ Definition column_prop_null_ok : fdef :=
      f_gen := false |}.
 
 Definition refs : list (nat * string) :=
-  [(0%nat, "beanquery.parser.ast.Node"); (1%nat, "builtins.isinstance"); (2%nat, "beanquery.parser.parse"); (3%nat, "beanquery.compiler.compile"); (4%nat, "beanquery.query_execute.execute_query"); (5%nat, "builtins.slice"); (6%nat, "builtins.tuple"); (7%nat, "builtins.hash")].
+  [(0%nat, "beanquery.parser.ast.Node"); (1%nat, "builtins.isinstance"); (2%nat, "beanquery.parser.parse"); (3%nat, "beanquery.compiler.compile"); (4%nat, "beanquery.query_execute.execute_query"); (5%nat, "builtins.iter"); (6%nat, "builtins.slice"); (7%nat, "builtins.tuple"); (8%nat, "builtins.hash")].
 
 (* beanquery.cursor.Column._vars: the attribute each attrgetter reads, and the translated property *)
 Definition column_vars : list (string * fdef) :=
